@@ -67,6 +67,22 @@ def check_response(ctx, result, text, witness, expect_no_data=False, prefix=""):
                     ctx.violation(prefix + "path:malformed", witness, repr(p)[:100])
             if "extensions" in e and not isinstance(e["extensions"], dict):
                 ctx.violation(prefix + "extensions:not-an-object", witness, repr(e["extensions"])[:100])
+    # what the response says about an error is what the error object holds when the response is made: a field error
+    # that carries a path and located nodes is rendered with that path and with locations
+    objs = list(getattr(result, "errors", None) or [])
+    if "errors" in resp and isinstance(resp["errors"], list) and len(objs) == len(resp["errors"]):
+        for obj, e in zip(objs, resp["errors"]):
+            if not isinstance(e, dict):
+                continue
+            path = getattr(obj, "path", None)
+            if path is not None:
+                ctx.count("error_entries_compared_with_error_objects")
+                if e.get("path") != list(path):
+                    ctx.violation(prefix + "error-entry:path-differs-from-the-error-object", witness,
+                                  "entry %r, error object path %r" % (e, list(path)))
+                nodes = [n for n in (getattr(obj, "nodes", None) or []) if getattr(n, "loc", None) and getattr(n, "source", None)]
+                if nodes and not e.get("locations"):
+                    ctx.violation(prefix + "error-entry:locations-missing-although-the-error-object-has-located-nodes", witness, repr(e)[:200])
     if expect_no_data and "data" in resp:
         ctx.violation(prefix + "data-present-after-parse-or-validation-failure", witness, repr(resp.get("data"))[:100])
     return resp
